@@ -213,9 +213,24 @@ func init() {
 		Run: func(c *Ctx) {
 			ns := NewNodeSim(c)
 			ns.Trusted.PingEvery = time.Duration(500+c.Scen.Choose(2500)) * time.Millisecond
-			sc := genTxScenario(c, ns.TxW, txGenOpts{conflicts: 0, blocks: true, untrusted: true, maxTxs: 8, silentPeers: true})
+			burst := c.Scen.Bool(1, 10)
+			o := txGenOpts{conflicts: 0, blocks: true, untrusted: true, maxTxs: 8, silentPeers: true}
+			if burst {
+				o.maxTxs, o.blocks = 140, false
+			}
+			sc := genTxScenario(c, ns.TxW, o)
 			if sc.untrusted == 0 {
 				sc.untrusted = 1 + int(c.Scen.Choose(3))
+			}
+			if burst && len(sc.txs) > 100 {
+				// more than a hundred announcements the first peer never honours: the second
+				// announcer's tracker has to re-request them in more than one batch
+				if sc.untrusted < 2 {
+					sc.untrusted = 2
+				}
+				c.Probe("burst_over_100")
+			} else {
+				burst = false
 			}
 			// mostly announcements, several per transaction, from different peers
 			for _, ts := range sc.txs {
@@ -238,6 +253,15 @@ func init() {
 					if c.Scen.Bool(1, 2) {
 						ts.holders[d.src] = true
 					}
+				}
+			}
+			if burst {
+				for i, ts := range sc.txs {
+					ts.deliveries = []txDelivery{
+						{at: time.Duration(500+i) * time.Millisecond, src: "u0", kind: "inv"},
+						{at: time.Duration(900+i) * time.Millisecond, src: "u1", kind: "inv"},
+					}
+					ts.holders = map[string]bool{"u1": true}
 				}
 			}
 			// map sources beyond the configured untrusted count back into range
